@@ -85,6 +85,18 @@ def option_items(tier):
         # a holiday inserted before the ones the run had, then "the absence steps" deleted: the stored list names a worked step by then; whatever is deleted is deleted at every level
         for ab, ins in (([3], [1]), ([2], [0]), ([1, 4], [2]), ([2], [1, 2])):
             out.append((sp, dict(o, absence=ab, post_insert=ins, post_remove="after-insert")))
+    # the public log reversal called by hand (once, twice) on forward results with and without absence steps
+    for sp, o in base[:: (7 if tier == "quick" else 2)]:
+        for n in (1, 2):
+            for ab in ([], [1, 2], [0, 3]):
+                out.append((sp, dict(o, absence=ab, post_reverse=n)))
+                out.append((sp, dict(o, absence=ab, post_reverse=n, post_remove="after-insert")))
+    # a whole calendar entered at once after the run (16 to 30 steps in one call) on the larger models
+    wk = [d for w in range(12) for d in (7 * w + 5, 7 * w + 6)]
+    for sp, o in F.large_items(("TSLACK",)):
+        if not o["absence"]:
+            for lst in (wk[:16], wk[:22], wk[:15], list(range(3, 33)), wk[:22][::-1]):
+                out.append((sp, dict(o, post_insert=lst)))
     # backward runs (logs reversed into forward-time reading, and left as they are) of models whose cost profile is not a palindrome
     back = [it for it in items(tier) if it[0].get("workplaces") and it[1]["max_time"] > 2][:: (3 if tier == "quick" else 1)]
     back += [(F.two_team_workplace_spec(), {"rule": "TSLACK", "max_time": 20})] + [(sp, {"rule": "TSLACK", "max_time": 30}) for sp in F.rule_sensitive_specs() if sp["label"].startswith("pairs")]
